@@ -277,7 +277,7 @@ func (vc *VC) finish(top *Frame) {
 				break
 			}
 			oldSub, _ := vc.readPath(ent.T, o.typ, p.path)
-			masked = vc.writePath(masked, o.typ, p.path, oldSub)
+			masked = vc.def("masked", vc.S.sortOf(o.typ), vc.writePath(masked, o.typ, p.path, oldSub))
 		}
 		if whole {
 			continue
